@@ -211,15 +211,16 @@ _p("C03", modules=["robustness", "demux", "ports", "quic_output", "main_run"], l
    level_text="Proved: for ANY TLS record (>= its 5 header bytes), ANY session flag state, ANY version state and a decryptor that fails or returns arbitrary bytes, the "
               "record reaches handle_tls_record through get_tls_records without an exception leaving get_tls_records (all nine record handlers executed from their real "
               "ASTs, the two parsing loops cut at invariants with variants); without a decryptor an application-data record adds nothing to the export (the gate) and "
-              "only (decryptor output, the record, its direction) is ever exported; main.handle_quic_packet raises nothing for any non-empty UDP payload; a DSB's text "
+              "only (decryptor output, the record, its direction) is ever exported; main.handle_quic_packet raises nothing for any non-empty UDP payload; Session.generate_keys raises at most ValueError (a secret with an odd number of hex "
+              "digits) for any subset of key-log lines, labels and suites, and that exception is stopped by the per-record barrier; a DSB's text "
               "never reaches the packet parser; a QUIC session without output contributes nothing; isolation = C04's routing and frame obligations.",
    level_note="level 'other': NOT covered - exception freedom inside QuicSession.handle_packet / extract_quic_packet / decrypt_packet (struct-based dissector not under contract; "
-              "it relies on its own blanket try/except), Session.generate_keys for malformed key-log values (odd-length hex), and the 'at most a prefix of the true plaintext' "
+              "it relies on its own blanket try/except; a contract is written in contracts/robustness.py but not registered because the engine does not decide it in reasonable time), and the 'at most a prefix of the true plaintext' "
               "clause, which is a statement about AEAD/CBC under wrong keys",
    design_ref="DESIGN.md 4 C03",
    explanation="The TLS record path and the UDP entry point are proved exception-free for all inputs; the QUIC dissector path and key-derivation failures are listed as not under contract.",
    assumptions=["every library call may raise on any input (cryptography, dpkt)"], trusted_base=[],
-   not_under_contract=["tlexport.quic.quic_dissector.extract_quic_packet", "QuicSession.handle_packet/handle_quic_packet/decrypt_packet", "Session.generate_keys exception freedom"])
+   not_under_contract=["tlexport.quic.quic_dissector.extract_quic_packet", "QuicSession.handle_packet loop / decrypt_packet's decryptor lookup before its try block"])
 
 _p("C01", modules=["record_protection", "framing", "keys", "cipher_suites", "tcp_output", "robustness", "metadata"], level="other",
    technique="contract-based deductive verification of every link of the TLS pipeline (per-function contracts; primitives uninterpreted); composition on paper",
